@@ -31,10 +31,15 @@ LEVEL_TEXT = ('The deleted-atom closure (`_get_deleted`) is proved exact against
               'corpus x built-in and synthetic templates, and the remaining clauses (valence validity, one product per match, '
               'numbering / order independence, kept / overridden stereo, exhaustive mode, aromaticity repair) are validated on the real outputs by a property-level oracle. '
               'Translation validation is the honest level: the matcher, kekule/thiele and the stereo translation are not in the model.')
-LEVEL_NOTE = ('Lean kernel; hand-written model Model/C16Patcher.lean validated by correspondence, not derived from the Python text; '
+LEVEL_NOTE = ('Lean kernel; hand-written models Model/C16Patcher.lean, Model/C16Worklist.lean (queue / seen / polymerise_limit over an abstract '
+              'step system whose table the harness records from the real _single_stage / ReactionContainer / contract_ions / str), '
+              'Model/C16Ions.lean (molecules as id / equality class / charge) validated by correspondence, not derived from the Python text; '
+              'completeness of the exhaustive mode assumes that str(reaction) is a congruence of the step system (Congr); '
               'Spec/C16Deleted.lean written from the property statement; matcher output (mappings) is taken from the real code; '
               'stereo labels, coordinates, kekule/thiele are outside the model; wire encoders of harness/props/c16.py; CachedMethods shim.')
-TECHNIQUE = 'Lean 4 executable model of _get_deleted/_patcher with proved exactness + frame theorems, differential line protocol, property-level oracle on products'
+TECHNIQUE = ('Lean 4 executable models of _get_deleted/_patcher/Graph.union/exhaustive worklist/contract_ions with proved exactness, frame, '
+             'isomorphic-copy, termination / reachable-set and partition theorems; differential line protocol; property-level oracle on products '
+             'and on the public entry points of the built-in collections')
 RULE = ('one case = (template, molecule in a concrete numbering and dict insertion order, one match): templates = every rule of '
         'chython.reactor.deprotection, every Reactor of chython.reactor.reactions, and synthetic templates covering each patcher '
         'branch (any-atom reuse, existing atom re-typed, new atoms with/without hydrogens, Element replacement, deleted atoms with '
@@ -1112,7 +1117,9 @@ def add_public_clauses(ctx):
     allt = []
     for name in dep._groups:
         tests = [t for rule in getattr(dep, '_' + name) for t in rule[2:]]
-        for t in (tests[:2] if ctx.quick else tests):
+        # each test molecule, and two copies of the first one in ONE molecule (two protective groups of the same kind: the rule
+        # has to be applied twice)
+        for t in (tests[:2] if ctx.quick else tests) + [f'{x}.{x}' for x in tests[:1]]:
             try:
                 mol = smiles(t)
             except Exception:
